@@ -986,6 +986,71 @@ example : stateRowsCapturedB pathTab = true ∧ capsPositiveB pathTab = true ∧
     (List.range 5).map (fun y => (gpuCToS pathTab T.tmax 3 2 3 pathC (fun _ _ => none) 1 y).isSome) = [false, true, true, true, false] := by
   decide +kernel
 
+/-! ### one simulation: `s_to_c`, `c_prop`, `c_to_s` on each class -/
+
+/-- `WaveSim`: assignment, propagation, capture; returns the final lanes of `c` / `abuf` and the captured records -/
+def cpuSimulate (tb : Tab) (sims : Nat) (ev : Ev) (ops : List AOp) (levels : List (Nat × Nat)) (time : T)
+    (s : Nat → Nat → SRow) (c : Nat → Col) (ab : Nat → Int → Int) (res : Nat → Nat → Option Cap) :
+    (Nat → LaneSt) × (Nat → Nat → Option Cap) :=
+  let c1 := cpuSToCAll tb sims s c
+  let S := cpuCProp ev ops levels sims (fun x => ⟨c1 x, ab x⟩)
+  (S, fun x => if x < sims then cpuCToS tb time (S x).c (res x) else res x)
+
+/-- `WaveSimCuda`: the same three steps through the kernels -/
+def gpuSimulate (tb : Tab) (den sims bx by_ : Nat) (ev : Ev) (ops : List AOp) (levels : List (Nat × Nat)) (time : T)
+    (s : Nat → Nat → SRow) (c : Nat → Col) (ab : Nat → Int → Int) (res : Nat → Nat → Option Cap) :
+    (Nat → LaneSt) × (Nat → Nat → Option Cap) :=
+  let c1 := gpuSToC tb den sims bx by_ s c
+  let S := gpuCProp ev ops levels sims bx by_ (fun x => ⟨c1 x, ab x⟩)
+  (S, gpuCToS tb time sims bx by_ (fun x => (S x).c) res)
+
+/-- **one whole simulation on the two classes**: under the table hypotheses of the three steps and logic values `0` or
+    `≥ 1/2`, `WaveSimCuda` (every block shape) ends with the same `c`, the same `abuf` and the same captured records on
+    every row and lane as `WaveSim` — for every evaluator function, op table, level table, capture time and previous
+    contents of all arrays -/
+theorem simulate_paths_agree (tb : Tab) (den sims bx by_ : Nat) (hbx : 0 < bx) (hby : 0 < by_) (hden : 0 < den)
+    (ev : Ev) (ops : List AOp) (levels : List (Nat × Nat)) (time : T)
+    (s : Nat → Nat → SRow) (c : Nat → Col) (ab : Nat → Int → Int) (res : Nat → Nat → Option Cap) (hio : tb.nIo ≤ tb.sLen)
+    (hrows : stateRowsAllocatedB tb = true) (hdisj : regionsDisjointB tb = true) (hflags : flagsOKB tb den sims s = true)
+    (hrows' : stateRowsCapturedB tb = true) (hcap : capsPositiveB tb = true) :
+    gpuSimulate tb den sims bx by_ ev ops levels time s c ab res = cpuSimulate tb sims ev ops levels time s c ab res := by
+  unfold gpuSimulate cpuSimulate
+  simp only
+  rw [s_to_c_paths_agree tb den sims bx by_ hbx hby hden s c hio hrows hdisj hflags,
+    (c_prop_paths_agree ev ops levels sims bx by_ hbx hby _).1]
+  congr 1
+  funext x
+  by_cases hx : x < sims
+  · rw [if_pos hx]
+    exact c_to_s_paths_agree tb time sims bx by_ hbx hby _ res hio hrows' hcap x hx
+  · rw [if_neg hx]
+    funext y
+    rw [gpuCToS_spec tb time sims bx by_ hbx hby]
+    exact if_neg (fun h => hx h.1)
+
+/-! non-vacuity: index 0 = constant 0, 1 = (P)PI slot of the input (row 0), 2 = (P)PI slot of the flip-flop (row 2),
+`3 = AND(1, 2)`, captured by the output (row 1) and by the flip-flop; regions of 8 cells at `8 i`; the memory holds stale data
+everywhere except in the constant's region; two lanes, capture at time 9 -/
+def simTab : Tab :=
+  { sLen := 3, nIo := 2, cLen := 32, ppiLoc := fun y => [8, -1, 16].getD y (-1), ppoLoc := fun y => [-1, 24, 24].getD y (-1), ppoCap := fun _ => 8 }
+def simEv : Ev := evWave (fun _ => ⟨fun _ _ _ => 2, fun _ => 8⟩) (fun i => 8 * i)
+def simOps : List AOp := [⟨⟨0x8888, 3, 1, 2, 0, 0⟩, 0, 1, 1⟩]
+def simS : Nat → Nat → SRow := fun x y => ⟨if y = 0 then 0 else 4, T.fin (5 + x + 3 * y), if y = 0 then 4 else if x = 1 then 4 else 0, 0⟩
+def simC : Nat → Col := fun x a => if a < 8 then T.tmax else T.fin (100 * x + a)
+
+example : gpuSimulate simTab 4 2 2 2 simEv simOps [(0, 1)] (T.fin 9) simS simC (fun _ _ => 0) (fun _ _ => none) =
+    cpuSimulate simTab 2 simEv simOps [(0, 1)] (T.fin 9) simS simC (fun _ _ => 0) (fun _ _ => none) :=
+  simulate_paths_agree simTab 4 2 2 2 (by decide) (by decide) (by decide) simEv simOps [(0, 1)] (T.fin 9) simS simC _ _
+    (by decide) (by decide) (by decide) (by decide) (by decide) (by decide)
+
+/-- … lane 0: the AND output rises at 7 and falls at 13 (captured value at 9: 1, one rise + one fall accumulated); behind the
+    terminator the stale cells are still there -/
+example : (gpuSimulate simTab 4 2 2 2 simEv simOps [(0, 1)] (T.fin 9) simS simC (fun _ _ => 0) (fun _ _ => none)).2 0 1 =
+      some { init := false, eat := T.fin 7, lst := T.fin 13, final := false, val := true, ovl := false } ∧
+    ((gpuSimulate simTab 4 2 2 2 simEv simOps [(0, 1)] (T.fin 9) simS simC (fun _ _ => 0) (fun _ _ => none)).1 0).ab 0 = 2 ∧
+    rdCells ((gpuSimulate simTab 4 2 2 2 simEv simOps [(0, 1)] (T.fin 9) simS simC (fun _ _ => 0) (fun _ _ => none)).1 0).c 24 5 =
+      [T.fin 7, T.fin 13, T.tmax, T.fin 27, T.fin 28] := by decide +kernel
+
 end CodePaths
 
 end KV.C06
